@@ -33,7 +33,7 @@ ASSUMPTIONS = [
   "checksum: 128-bit message layout = word i in bits [16i,16i+16) (examples/ex02_cksum/utils.py)",
 ]
 QUICK_S = 44
-THOROUGH_S = 800
+THOROUGH_S = 780
 
 LEVELS = ("FL", "CL", "RTL")
 DATA_WORDS = 64                    # words in the data region
@@ -442,21 +442,21 @@ class Gen:
       self.emit(("nop",))
 
 
-_stop = [None]        # set by run_shard: callable telling the generators that the budget is gone
+def expand(base, n):
+  """n data words from a few drawn ones: the drawn (boundary-biased) values first, then mixed copies"""
+  return [(base[i % len(base)] ^ (0x9E3779B1 * (i // len(base)))) & T.MASK32 for i in range(n)]
 
 
 @st.composite
 def proc_cases(draw, max_items=14, max_steps=260):
-  if _stop[0] is not None and _stop[0]():
-    return None                              # budget gone: do not spend time generating
   data_base = draw(st.sampled_from(DATA_BASES))
   g = Gen(draw)
   first_inputs = g.prologue(data_base)
   g.block(draw(st.integers(4, max_items)), 0, (R_B0, R_MASK))
   g.epilogue()
   program = [T.fmt(x) for x in g.out]
-  data = draw(st.lists(value32, min_size=DATA_WORDS, max_size=DATA_WORDS))
-  low_data = draw(st.lists(value32, min_size=LOW_WORDS, max_size=LOW_WORDS))
+  data = expand(draw(st.lists(value32, min_size=4, max_size=10)), DATA_WORDS)
+  low_data = expand(draw(st.lists(value32, min_size=2, max_size=6)), LOW_WORDS)
   pool = draw(st.lists(value32, min_size=1, max_size=12))
   words, _ = T.assemble(program)
   halt = T.RESET_VECTOR + 4 * len(words)
@@ -540,8 +540,6 @@ words8 = st.one_of(st.lists(word16, min_size=8, max_size=8),
 
 @st.composite
 def cksum_cases(draw):
-  if _stop[0] is not None and _stop[0]():
-    return None
   return {"kind": "cksum", "msgs": draw(st.lists(words8, min_size=1, max_size=5)),
           "src_init": draw(st.integers(0, 10)), "src_intv": draw(st.integers(0, 3)),
           "sink_init": draw(st.integers(0, 10)), "sink_intv": draw(st.integers(0, 3)),
@@ -600,7 +598,6 @@ def one_cksum(ctx, case):
 # ---------------------------------------------------------------------------
 
 def run_shard(ctx):
-  _stop[0] = ctx.out_of_time
   # fixed boundary checksum inputs first (one shard), then generated ones
   if ctx.shard == 0:
     fixed = [[w] * 8 for w in W_BOUND] + [[0xFFFF, 0] * 4, [0, 0xFFFF] * 4, list(range(1, 9)),
@@ -614,23 +611,33 @@ def run_shard(ctx):
   @ctx.settings(ctx.n(320, 12000))
   @given(cksum_cases())
   def t_cksum(case):
-    if case is None or ctx.out_of_time(): return
+    if ctx.out_of_time(): return
     one_cksum(ctx, case)
 
   ctx.run(t_cksum, "c20_cksum")
   if ctx.violations:
     return
 
+  # processor programs: Hypothesis runs in chunks with fresh seeds, so that an exhausted wall budget
+  # ends the shard after at most one chunk of (skipped) examples
   small = ctx.tier == "quick"
+  total = ctx.n(1280, 32000)
+  chunk = 20 if small else 40
+  strat = proc_cases(max_items=12 if small else 18, max_steps=220 if small else 400)
+  done = 0
+  while done < total and not ctx.violations and not ctx.out_of_time():
+    n = min(chunk, total - done)
 
-  @seed(ctx.hseed(2))
-  @ctx.settings(ctx.n(1280, 32000))
-  @given(proc_cases(max_items=12 if small else 18, max_steps=220 if small else 400))
-  def t_proc(case):
-    if case is None or ctx.out_of_time(): return
-    one_proc(ctx, case)
+    @seed(ctx.hseed(2) * 100003 + done)
+    @ctx.settings(n)
+    @given(strat)
+    def t_proc(case):
+      if ctx.out_of_time(): return
+      one_proc(ctx, case)
 
-  ctx.run(t_proc, "c20_proc")
+    ctx.run(t_proc, "c20_proc")
+    done += n
+  ctx.extra["chunks"] = (done + chunk - 1) // chunk
 
 
 def replay(case):
